@@ -183,6 +183,9 @@ var alphabet = []opT{
 	{"Flush", func(x *world) { x.w.Sh.FlushWriteCache(false) }},
 	{"Resync", (*world).resync},
 	{"Restart", (*world).reopen},
+	// the tombstone's expiration epoch passes at once, with no GC pass in between (appended last: the
+	// prefix scenarios address the letters above by index)
+	{"Epoch+3", func(x *world) { x.epoch(); x.epoch(); x.epoch() }},
 }
 
 type result struct {
@@ -360,25 +363,31 @@ var raceFree = -1
 func main() {
 	r := ev.Start("C09", ev.ModelChecking)
 	depth, pre := 3, 1
-	list := func(depth, pre int, tag string) []sched.Scenario {
+	list := func(depth, pre int, tag string, deep bool) []sched.Scenario {
 		l := []sched.Scenario{
-			raceScenario("drop", pre, false), raceScenario("tombstone", pre, false),
-			raceScenario("drop", pre, true), raceScenario("tombstone", pre, true),
+			// cheap sequential families first: what they leave of their budget share rolls over to the races
 			historyScenario(true, depth), historyScenario(false, depth),
 			// the object is in the blobstor AND put again into the write-cache (Put, Flush, Put), then anything
 			historyScenario(true, depth-1, 0, 5, 0),
+			// start from the removed state (Put, PutTombstone), then anything
+			historyScenario(false, depth-1, 0, 1), historyScenario(true, depth-1, 0, 1),
+			raceScenario("drop", pre, false), raceScenario("tombstone", pre, false),
+			raceScenario("drop", pre, true),
+		}
+		if deep {
+			l = append(l, raceScenario("tombstone", pre, true)) // long executions (4 epochs + GC passes): thorough only
 		}
 		for i := range l {
 			l[i].Name += tag
 		}
 		return l
 	}
-	scs := list(depth, pre, "")
+	scs := list(depth, pre, "", r.Thorough())
 	if r.Thorough() {
 		// deeper bounds after the quick ones (the budget is shared per scenario, leftovers roll on)
 		depth, pre = 5, 2
 		raceFree = 1
-		scs = append(scs, list(depth, pre, " [deep]")...)
+		scs = append(scs, list(depth, pre, " [deep]", true)...)
 	}
 	r.Rule(fmt.Sprintf("(A) every history of <=%d operations over %d operations x write-cache on/off followed by a closing resync; (B) all schedules with <=%d preemptions of put; flusher || drop / tombstone+expiry+GC; then resync and restart. Monitor on every observation of Get(R); non-trivial = distinct (removal kind, removal observed, fresh upload) outcome classes", depth, len(alphabet), pre))
 	r.Assume("resync is meta.DB.ResyncFromBlobstor run on the stopped shard as neofs-lancet does (write-cache content is not part of it)", "atomics are not scheduling points")
